@@ -12,6 +12,8 @@ import common
 import secsgem.common.tcp_connection as tcpmod
 import secsgem.hsms
 
+threading.excepthook = lambda args: None  # the listener thread prints EBADF when disable() closes its socket; stray thread deaths are observed through deadlines
+
 
 class OracleExhausted(BaseException):
     pass
@@ -123,8 +125,17 @@ def loopback_round(port, size, pacing, via_protocol):
         conn = proto._connection
         conn._sock.setsockopt(socket.SOL_SOCKET, socket.SO_SNDBUF, 4096)
         payload = bytes((i * 7 + (i >> 8)) & 0xFF for i in range(size))
+        message = None
+        if via_protocol:
+            # through HsmsProtocol.send_message / _process_send_queue, which cuts the block into packets of send_packet_size
+            from secsgem.hsms.header import HsmsHeader, HsmsSType
+            from secsgem.hsms.message import HsmsMessage
+            message = HsmsMessage(HsmsHeader(77, 0, 1, 1, False, 0, HsmsSType.DATA_MESSAGE), payload)
+            payload = message.blocks[0].encode()
+            size = len(payload)
+            obs["size"] = size
         received = bytearray()
-        expected_len = size
+        expected_len = len(payload)
         done = threading.Event()
 
         def reader():
@@ -146,7 +157,7 @@ def loopback_round(port, size, pacing, via_protocol):
         th = threading.Thread(target=reader, daemon=True)
         th.start()
         t0 = time.monotonic()
-        ok = common.with_deadline(lambda: conn.send_data(payload), 60.0)
+        ok = common.with_deadline((lambda: proto.send_message(message)) if via_protocol else (lambda: conn.send_data(payload)), 60.0)
         obs["reported"] = bool(ok)
         obs["send_seconds"] = round(time.monotonic() - t0, 2)
         done.wait(20)
@@ -246,6 +257,16 @@ def run(tier, replay=None):
                 report.violation({"kind": "counterexample", "what": "send_data() reported success but the peer did not receive the bytes complete, in order and unduplicated", **obs}, True, tag="tcp")
                 break
         if any(v for v in report.violations if "tcp" in v):
+            break
+    # whole messages through the protocol's send queue, around the packet size
+    for size in ([1024 * 1024 + 1] if tier == "quick" else [1024 * 1024 - 14, 1024 * 1024 - 13, 1024 * 1024 + 1, 2 * 1024 * 1024 + 5, 3 * 1024 * 1024 - 14]):
+        k += 1
+        obs = common.guarded(lambda size=size, k=k: loopback_round(base + k, size, "immediate", True), f"loopback: message with a body of {size} bytes through send_message", twedged, 120.0)
+        if obs is None:
+            continue
+        rounds.append(obs)
+        if obs["reported"] and not obs["identical"]:
+            report.violation({"kind": "counterexample", "what": "send_message() reported success but the peer did not receive the frame complete, in order and unduplicated", **obs}, True, tag="tcp")
             break
     common.report_wedged(report, twedged, proof)
     if not report.violations:
